@@ -126,21 +126,27 @@ func (store *fileStore) Reset() error {
 	if err := store.Close(); err != nil {
 		return errors.Wrap(err, "close")
 	}
+	crashPoint("Reset:closed")
 	if err := removeFile(store.bodyFname); err != nil {
 		return err
 	}
+	crashPoint("Reset:removed:body")
 	if err := removeFile(store.headerFname); err != nil {
 		return err
 	}
+	crashPoint("Reset:removed:header")
 	if err := removeFile(store.sessionFname); err != nil {
 		return err
 	}
+	crashPoint("Reset:removed:session")
 	if err := removeFile(store.senderSeqNumsFname); err != nil {
 		return err
 	}
+	crashPoint("Reset:removed:senderseqnums")
 	if err := removeFile(store.targetSeqNumsFname); err != nil {
 		return err
 	}
+	crashPoint("Reset:removed:targetseqnums")
 	return store.Refresh()
 }
 
@@ -159,22 +165,28 @@ func (store *fileStore) Refresh() (err error) {
 	if err != nil {
 		return err
 	}
+	crashPoint("Refresh:populated")
 
 	if store.bodyFile, err = openOrCreateFile(store.bodyFname, 0660); err != nil {
 		return err
 	}
+	crashPoint("Refresh:opened:body")
 	if store.headerFile, err = openOrCreateFile(store.headerFname, 0660); err != nil {
 		return err
 	}
+	crashPoint("Refresh:opened:header")
 	if store.sessionFile, err = openOrCreateFile(store.sessionFname, 0660); err != nil {
 		return err
 	}
+	crashPoint("Refresh:opened:session")
 	if store.senderSeqNumsFile, err = openOrCreateFile(store.senderSeqNumsFname, 0660); err != nil {
 		return err
 	}
+	crashPoint("Refresh:opened:senderseqnums")
 	if store.targetSeqNumsFile, err = openOrCreateFile(store.targetSeqNumsFname, 0660); err != nil {
 		return err
 	}
+	crashPoint("Refresh:opened:targetseqnums")
 
 	if !creationTimePopulated {
 		if err := store.setSession(); err != nil {
@@ -235,10 +247,12 @@ func (store *fileStore) setSession() error {
 	if _, err := store.sessionFile.Write(data); err != nil {
 		return fmt.Errorf("unable to write to file: %s: %s", store.sessionFname, err.Error())
 	}
+	crashPoint("setSession:written")
 	if store.fileSync {
 		if err := store.sessionFile.Sync(); err != nil {
 			return fmt.Errorf("unable to flush file: %s: %s", store.sessionFname, err.Error())
 		}
+		crashPoint("setSession:synced")
 	}
 	return nil
 }
@@ -252,10 +266,12 @@ func (store *fileStore) setSeqNum(f *os.File, seqNum int) error {
 	if _, err := fmt.Fprintf(f, "%019d", seqNum); err != nil {
 		return fmt.Errorf("unable to write to file: %s: %s", f.Name(), err.Error())
 	}
+	crashPoint("setSeqNum:written")
 	if store.fileSync {
 		if err := f.Sync(); err != nil {
 			return fmt.Errorf("unable to flush file: %s: %s", f.Name(), err.Error())
 		}
+		crashPoint("setSeqNum:synced")
 	}
 	return nil
 }
@@ -324,10 +340,12 @@ func (store *fileStore) SaveMessage(seqNum int, msg []byte) error {
 	if _, err := fmt.Fprintf(store.headerFile, "%d,%d,%d\n", seqNum, offset, len(msg)); err != nil {
 		return fmt.Errorf("unable to write to file: %s: %s", store.headerFname, err.Error())
 	}
+	crashPoint("SaveMessage:header-written")
 
 	if _, err := store.bodyFile.Write(msg); err != nil {
 		return fmt.Errorf("unable to write to file: %s: %s", store.bodyFname, err.Error())
 	}
+	crashPoint("SaveMessage:body-written")
 	if store.fileSync {
 		return store.syncBodyAndHeaderFilesLocked()
 	}
@@ -348,6 +366,7 @@ func (store *fileStore) syncBodyAndHeaderFilesLocked() error {
 	} else if err = store.headerFile.Sync(); err != nil {
 		return fmt.Errorf("unable to flush file: %s: %s", store.headerFname, err.Error())
 	}
+	crashPoint("sync:body+header")
 	return nil
 }
 
